@@ -324,8 +324,15 @@ class Compiler:
                         self._compile_statement(try_ctx.finalizer)
                     ti -= 1
                 elif li > target_index:
-                    if pop_operands:
+                    # A return leaves the operands to the VM, unless a finally block is
+                    # still to run: it may jump away and must find only the pending value
+                    finalizer_ahead = pending_value and any(
+                        t.finalizer for t in saved_try_stack[: ti + 1]
+                    )
+                    if pop_operands or finalizer_ahead:
                         for _ in range(saved_loop_stack[li].operands):
+                            if pending_value:
+                                self._emit(OpCode.SWAP)  # the operand is under the value
                             self._emit(OpCode.POP)
                     li -= 1
                 else:
